@@ -60,8 +60,8 @@ def check_inventory(spec, mo):
         if got != want: probs.append(f'defenses of {name} are {got}, expected {want}')
         if extra and extra[0]: probs.append(f'{name} exposes defenses it neither defines nor inherits: {extra[0]}')
     for a, row in zip(spec['associations'], assocs):
-        want = [assoc_class_name(spec, a), a['leftField'], a['leftAsset'], a['leftMultiplicity']['max'] or None,
-                a['rightField'], a['rightAsset'], a['rightMultiplicity']['max'] or None, True]
+        want = [assoc_class_name(spec, a), a['leftField'], a['leftAsset'], a['leftMultiplicity']['max'],
+                a['rightField'], a['rightAsset'], a['rightMultiplicity']['max'], True]
         if row != want: probs.append(f'association class {row} differs from the declaration {want}')
     names = [r[0] for r in assocs]
     if len(set(names)) != len(names): probs.append('two association declarations share one class')
@@ -92,7 +92,7 @@ def valid_state(im: Impl):
     decl = {assoc_class_name(im.spec, a): a for a in im.spec['associations']}
     for a in m.assets:
         for k, v in m.get_asset_defenses(a, include_defaults=True).items():
-            if not (0.0 <= float(v) <= 1.0): probs.append(f'defense value {v} outside [0,1] in the model')
+            if not (0.0 <= float(v) <= 1.0): probs.append(f'defense value {float(v)!r} outside [0,1] in the model')
     seen = set()
     for assoc in m.associations:
         cn = type(assoc).__name__
@@ -101,7 +101,7 @@ def valid_state(im: Impl):
         for fld, ty, mx in ((d['leftField'], d['leftAsset'], d['leftMultiplicity']['max']), (d['rightField'], d['rightAsset'], d['rightMultiplicity']['max'])):
             mem = list(getattr(assoc, fld))
             if any(ty not in anc(str(x.type)) for x in mem): probs.append('association field holds an asset of a wrong type')
-            if mx and len(mem) > mx: probs.append('association field exceeds its maximum multiplicity')
+            if mx is not None and len(mem) > mx: probs.append('association field exceeds its maximum multiplicity')
             if len({id(x) for x in mem}) != len(mem): probs.append('asset repeated inside an association field')
         for l in getattr(assoc, d['leftField']):
             for r in getattr(assoc, d['rightField']):
@@ -135,8 +135,8 @@ def run(seed, tier, lean) -> Result:
     cases = []
     for i in range(n):
         r = random.Random(rnd.getrandbits(48))
-        spec = LangGen(r, knobs={'dup_assoc_names': 0.5}).gen()
-        cases.append((spec, Gen(r, spec, WEIGHTS).gen(r.randint(6, 40))))
+        spec = LangGen(r, knobs={'dup_assoc_names': 0.5, 'zero_mult': 0.12}).gen()
+        cases.append((spec, Gen(r, spec, WEIGHTS, odd_defenses=True).gen(r.randint(6, 40))))
     model = inv = None
     if lean['build_ok']:
         model = run_driver([{'op': 'model_hist', 'case': i, 'lang': lang_payload(s), 'ops': o} for i, (s, o) in enumerate(cases)])
@@ -170,5 +170,8 @@ def replay(path):
     return 1 if v else 0
 
 def check_witness(w):
+    if 'ops' in w:
+        bad = run_history(w['spec'], w['ops'], None, Result())
+        return ('C06:' + bad[2][0][:50]) if bad and bad[0] == 'oracle' else None
     v = check_inventory(w['spec'], None)
     return v.fingerprint if v else None
